@@ -9,6 +9,7 @@ pub mod c04;
 pub mod c05;
 pub mod c07;
 pub mod c08;
+pub mod c10;
 pub mod c11;
 pub mod c12;
 pub mod c13;
@@ -44,6 +45,16 @@ pub fn cfg_for(gen_name: &str) -> GenCfg {
             c.big_offsets = false;
             c.max_funcs = 5;
             c.max_ops = 15;
+            c
+        }
+        "dwarf" => {
+            let mut c = GenCfg::full();
+            c.big_offsets = false;
+            c.max_funcs = 7;
+            c.min_funcs = 1;
+            c.max_ops = 60;
+            c.customs = 0;
+            c.tags = false;
             c
         }
         "manyfuncs" => {
@@ -99,7 +110,7 @@ pub struct PropDef {
 }
 
 pub fn all() -> Vec<PropDef> {
-    vec![c02::def(), c03::def(), c04::def(), c05::def(), c07::def(), c08::def(), c11::def(), c12::def(), c13::def(), c14::def(), c15::def(), c16::def(), c17::def(), c19::def(), c20::def()]
+    vec![c02::def(), c03::def(), c04::def(), c05::def(), c07::def(), c08::def(), c10::def(), c11::def(), c12::def(), c13::def(), c14::def(), c15::def(), c16::def(), c17::def(), c19::def(), c20::def()]
 }
 
 pub fn get(id: &str) -> Option<PropDef> {
